@@ -44,6 +44,8 @@ class Message:
         self.framing = None     # 'none' | 'length' | 'chunked' | 'close'
         self.trailers = []
         self.chunk_sizes = []
+        self.chunk_marks = []   # per chunk: (size line start, data start, data end, position after the data's CRLF)
+        self.zero_line = None   # (start, end) of the last-chunk size line, end = position after its CRLF
         self.start = 0
         self.end = 0
         self.head_end = 0
@@ -163,6 +165,7 @@ def _is_chunked(msg):
 def _chunked(buf, pos, msg):
     body = []
     while True:
+        line_start = pos
         line, pos = _line(buf, pos)
         size, _, ext = line.partition(b';')
         if not HEXSIZE.match(size):
@@ -172,10 +175,12 @@ def _chunked(buf, pos, msg):
         n = int(size, 16)
         msg.chunk_sizes.append(n)
         if n == 0:
+            msg.zero_line = (line_start, pos)
             break
         if len(buf) < pos + n:
             raise Incomplete('chunk data')
         body.append(buf[pos:pos + n])
+        msg.chunk_marks.append((line_start, pos, pos + n, pos + n + 2))
         pos += n
         if len(buf) < pos + 2:
             if buf[pos:] not in (b'', b'\r'):
